@@ -529,4 +529,38 @@ def header_campaign(props, seed=0):
             bad.append((clause, f"{type(x).__name__}: {x}", rp))
         finally:
             os.unlink(path)
+    # write side on a FOREIGN table: every entry the library writes - the new one, the unused slots it
+    # re-points, the entries it moves - is canonical (reserved word zero, text NUL padded), whatever
+    # bytes were in that slot before
+    from . import blocks as _blocks
+    for trial in range(4):
+        nent = [3, 5, 14, 4][trial]
+        te = 64 + 288 * nent
+        junk = lambda k: bytes(rng.choice([0xFF, 0xDE, 0x41, 0x90]) for _ in range(k))  # noqa: E731
+        data = refio.pack_header(1, nent, 1, 2, 3)
+        for i in range(nent):
+            craw = b"old" + b"\0" + junk(252)
+            data += refio.pack_entry(0, 0, te, 0, 5, 6, 7, comment_raw=craw, pad4=junk(4))
+        with open(path, "wb") as fh:
+            fh.write(data)
+        n += 1
+        try:
+            with Tdf(path).allow_write() as t:
+                t.add_block(_blocks.make_block(16, 1, 40 + trial))
+                t.add_block(_blocks.make_block(6, 2, 50 + trial))
+                after_add = open(path, "rb").read()
+                t.remove_block(_blocks.make_block(16, 0, 0).type)
+                after_rem = open(path, "rb").read()
+            for label, raw2, first in (("add", after_add, 0), ("remove", after_rem, 0)):
+                for i in range(first, nent):
+                    e, _, _ = L.decode("Entry", raw2, 1, pos=64 + 288 * i)
+                    if L.encode("Entry", e, 1) != raw2[64 + 288 * i:64 + 288 * (i + 1)]:
+                        bad.append(("C06:rewritten_entry_not_canonical",
+                                    f"slot {i} of a {nent}-slot table after {label}: reserved bytes or string padding of an entry the library wrote are not zero", rp))
+                        break
+        except Exception as x:  # noqa: BLE001
+            bad.append(("C06:rewritten_entry_not_canonical", f"{type(x).__name__}: {x}", rp))
+        finally:
+            if os.path.exists(path):
+                os.unlink(path)
     return [b for b in bad if b[0][:3] in props], n
